@@ -86,7 +86,7 @@ def bounds(tier):
                          if tier == 'quick' else 'all of size 1-8 of the 14-menu (12910)'),
                 deviation=('full product exp x T_ref x descriptor for <= 2 references, one deviation for 3-4, '
                            'default + consistent for 5-8' if tier == 'quick' else
-                           'full product for <= 3 references, one deviation for 4, default + consistent for 5-8'),
+                           'full product for <= 3 references, one deviation for 4-5, default + consistent for 6-8'),
                 exp_modes=EXP_MODES, tref_modes=TREF_MODES, descriptor_modes=DESC_MODES,
                 temperatures=TEMPS, history_pool=[NAMES[i] for i in HIST_POOL[tier]],
                 history_depth=HIST_DEPTH[tier])
@@ -115,7 +115,7 @@ def _fit_cases(tier):
             level = 'full' if k <= 2 else ('one' if k <= 4 else 'two')
         else:
             pool = range(n)
-            level = 'full' if k <= 3 else ('one' if k == 4 else 'two')
+            level = 'full' if k <= 3 else ('one' if k <= 5 else 'two')
         for sub in itertools.combinations(pool, k):
             for cfg in _configs(level):
                 yield dict(kind='fit', refs=list(sub), **cfg)
